@@ -282,11 +282,15 @@ pub fn run(ctx: &Ctx) -> Report {
         .flat_map(|p| [false, true].map(|crlf| super::c02::CorpusCase { path: p.clone(), crlf, pick: 0, max_classes: 0 }))
         .collect();
     rep.run_enum("corpus", &corpus, check_corpus);
+    super::scale::run(&mut rep, ctx, "C09");
     rep
 }
 
 pub fn replay(stage: &str, case: &Value) -> Check {
     let mut st = Stats::new();
+    if stage == "scale" {
+        return super::scale::replay(case);
+    }
     match stage {
         "ast" | "wide" | "tall" => check_case(&serde_json::from_value(case.clone()).map_err(|e| Fail::new("harness-replay", e.to_string()))?, &mut st),
         "corpus" => check_corpus(&serde_json::from_value(case.clone()).map_err(|e| Fail::new("harness-replay", e.to_string()))?, &mut st),
